@@ -12,6 +12,7 @@
   (`…_counterexample`) and the statement that does hold is named `…_partial`.
 -/
 import MpProofs.Cache
+import MpProofs.CacheOld
 
 namespace Mp
 open Mp.Cache
@@ -116,15 +117,15 @@ theorem bernoulli_abort_safe (env : BernEnv) (s : BernState) (n prec : Nat) (rnd
     (fault : Option Nat) (hi : BernInv env s) : BernInv env (bernReq env s n prec rnd fault).1 :=
   bernReq_inv env s n prec rnd fault hi
 
-/-- FULL statement (false, see `bernoulli_first_call_counterexample`): after every history the answer
-for even `n` in the cached range is `mpf_pos (bernVal wp n) prec rnd`.
-
-PROVED: after every history the answer is `mpf_bernoulli_huge(n, prec, rnd)`, or an exception of the
-recurrence itself, or comes from the history-independent table value `bernVal env wp n`
-(`wp = bernWp prec`) — but returned UNROUNDED on the path that computes it (`computed`), and rounded to
-`prec` only on the cached path with an explicit rounding mode (`cachedPos`).  A `KeyError` on
-`numbers[n]` cannot happen. -/
-theorem bernoulli_refines_partial (env : BernEnv) (h : List (Nat × Nat × Option Rnd × Option Nat))
+/-- After every history (any arguments, precisions, rounding modes, requests aborted at any iteration)
+the answer of `mpf_bernoulli(n, prec, rnd)` for even `n` in the cached range is
+`mpf_bernoulli_huge(n, prec, rnd)`, or an exception of the recurrence itself, or
+`bernRound v prec rnd` — `mpf_pos(v, prec, rnd)`, resp. `v` itself for `rnd = None` — of the
+history-independent table value `v = bernVal env wp n` (`wp = bernWp prec`), the SAME on the path that
+computes the entry and on the path that finds it cached.  A `KeyError` on `numbers[n]` cannot happen.
+(Before commit 8bbd625 the computing path returned `v` unrounded: defect D14,
+`Mp.Cache.bernoulli_first_call_old_counterexample` in MpProofs/CacheOld.lean.) -/
+theorem bernoulli_refines (env : BernEnv) (h : List (Nat × Nat × Option Rnd × Option Nat))
     (n prec : Nat) (rnd : Option Rnd) (h2 : n % 2 = 0) (hlo : 2 ≤ n) (hhi : n ≤ MAX_BERNOULLI_CACHE)
     (hfrac : env.useFrac n prec = false) :
     BernOutcome env n prec rnd (bernReq env (bernAfter env FMap.empty h) n prec rnd none).2 := by
@@ -137,18 +138,11 @@ theorem bernoulli_refines_partial (env : BernEnv) (h : List (Nat × Nat × Optio
   simp only [h0, h1, h3, h4, hfrac, if_false, Bool.false_eq_true]
   exact bernCached_outcome env _ n prec rnd hi h2 hlo
 
-/-- the real recurrence body with `bernoulli_size(m) = -3, -5, -5, -4` for `m = 2, 4, 6, 8` -/
-def bernEnvSmall : BernEnv where
-  body := bernBodyReal (fun m => [(-3 : Int), -5, -5, -4].getD (m / 2 - 1) 0)
-  huge := fun _ _ _ => fnan
-  useFrac := fun _ _ => false
-  frac := fun _ _ _ => fnan
-
-/-- D14 — `bernoulli(8)` at 60 bits, rounding to nearest, twice in a fresh process: the first call
-returns the 94-bit working-precision entry, the second the 60-bit rounded value. -/
-theorem bernoulli_first_call_counterexample :
+/-- non-vacuity and regression for D14: `bernoulli(8)` at 60 bits, rounding to nearest, twice from
+an empty cache — the computing call and the cached call now return the same 60-bit value. -/
+theorem bernoulli_first_call_rounded :
     (bernReq bernEnvSmall FMap.empty 8 60 (some .n) none).2
-      = .ok (.computed, ⟨1, 0x222222222222222222222221, -98, 94⟩) ∧
+      = .ok (.computed, ⟨1, 0x888888888888889, -64, 60⟩) ∧
     (bernReq bernEnvSmall (bernReq bernEnvSmall FMap.empty 8 60 (some .n) none).1 8 60 (some .n) none).2
       = .ok (.cachedPos, ⟨1, 0x888888888888889, -64, 60⟩) := by
   decide +kernel
